@@ -34,6 +34,10 @@ type spec struct {
 	extra    int // an additional empty block is closed with probability extra/10
 	byzFirst bool
 	restart  int // an honest keyper process is restarted before its step with probability restart/20
+	// pause: this honest keyper is not scheduled during the given phase of eon 1 (its messages of
+	// that phase land late); -1: nobody
+	pause      int
+	pausePhase puredkg.Phase
 }
 
 func (s spec) String() string {
@@ -46,7 +50,11 @@ func (s spec) String() string {
 	for _, i := range idx {
 		bs = append(bs, fmt.Sprintf("byz%d{%s}", i, s.byz[i]))
 	}
-	return fmt.Sprintf("%s n=%d t=%d phase=%d sched=%d skip=%d/%d extra=%d byzFirst=%t restart=%d/20 %s", s.family, s.n, s.t, s.phaseLen, s.sched, s.skip, s.maxSkip, s.extra, s.byzFirst, s.restart, strings.Join(bs, " "))
+	ps := ""
+	if s.pause >= 0 {
+		ps = fmt.Sprintf(" pause=k%d/%s", s.pause, s.pausePhase)
+	}
+	return fmt.Sprintf("%s n=%d t=%d phase=%d sched=%d skip=%d/%d extra=%d byzFirst=%t restart=%d/20%s %s", s.family, s.n, s.t, s.phaseLen, s.sched, s.skip, s.maxSkip, s.extra, s.byzFirst, s.restart, ps, strings.Join(bs, " "))
 }
 
 var specs []spec
@@ -65,7 +73,7 @@ func main() {
 		Level: "fault_enumeration",
 		Rule: "case = one complete DKG run over the real shuttermint app with repository keypers as the honest ones and harness-played Byzantine keypers; " +
 			"family byz3 = every strategy in {commitment: correct|none|wrong degree|duplicate} x {eval per victim: correct|wrong|none}^2 x {false accusation: none|victim a|victim b} x {apology: correct|wrong|none} x {in phase|after phase} for each Byzantine index of n=3,t=2 (exhaustive), under a regular schedule, plus seeded irregular schedules; " +
-			"family byzN = seeded strategies for n=4 (t=3: one Byzantine; t=2: two) and n=5 (t=3: two); sampled strategies additionally use undecryptable evaluations, evaluations plus the group order, early accusations, unsolicited apologies, wrong-eon messages and messages naming outsiders or the sender itself; in the seeded families honest keyper processes are additionally restarted between two iterations of their main loop (fresh in-memory state, same database); family honest = all keypers honest, seeded schedules (step order, skipped steps, empty blocks, phase length 4..8, n in 3..5). " +
+			"family byzN = seeded strategies for n=4 (t=3: one Byzantine; t=2: two) and n=5 (t=3: two); sampled strategies additionally use undecryptable evaluations, evaluations plus the group order, early accusations, unsolicited apologies, wrong-eon messages and messages naming outsiders or the sender itself; in the seeded families honest keyper processes are additionally restarted between two iterations of their main loop (fresh in-memory state, same database); family byz3-late-honest = an honest keyper is not scheduled through one phase of the run (late dealing / late accusation / late apology) while the Byzantine keyper deals it a wrong evaluation and accuses it; family honest = all keypers honest, seeded schedules (step order, skipped steps, empty blocks, phase length 4..8, n in 3..5). " +
 			"distinct = spec string; non-trivial = at least one honest keyper reported success (agreement is then checked) ",
 		Assumptions: []string{
 			"Tendermint is replaced by smchain: the harness chooses block boundaries; keyper broadcasts execute into the open block",
@@ -86,6 +94,7 @@ func main() {
 			agg.Require("byz_excluded_runs", 10)
 			agg.Require("apology_repaired_runs", 5)
 			agg.Require("honest_keyper_restarts", 50)
+			agg.Require("runs_with_an_honest_keyper_paused_through_a_phase", 20)
 		},
 	})
 }
@@ -169,6 +178,26 @@ func prepare(env *vlib.Env) (int, error) {
 		}
 		specs = append(specs, spec{family: "honest", n: n, t: t, phaseLen: int64(4 + rng.Intn(5)), sched: rng.Uint64(), skip: rng.Intn(5), maxSkip: 1 + rng.Intn(2), extra: rng.Intn(4), restart: rng.Intn(3)})
 	}
+	// an honest keyper whose messages of one phase land late: the dealer's victim during the
+	// accusing phase (late accusation), the falsely accused during the apologizing phase (late
+	// apology), a dealer during the dealing phase
+	base := len(specs)
+	for b := 0; b < 3; b++ {
+		for v := 0; v < 3; v++ {
+			if v == b {
+				continue
+			}
+			for _, ap := range []string{"correct", "none"} {
+				for _, ph := range []puredkg.Phase{puredkg.Dealing, puredkg.Accusing, puredkg.Apologizing} {
+					st := dkgsim.Strategy{Commitment: "correct", Eval: map[int]string{v: "wrong"}, Accuse: v, Apology: ap, CheckIn: true, Vote: true}
+					specs = append(specs, spec{family: "byz3-late-honest", n: 3, t: 2, phaseLen: 6, byz: map[int]dkgsim.Strategy{b: st}, pause: v, pausePhase: ph})
+				}
+			}
+		}
+	}
+	for i := 0; i < base; i++ {
+		specs[i].pause = -1
+	}
 	return len(specs), nil
 }
 
@@ -202,6 +231,7 @@ func runCase(env *vlib.Env, idx int, rep *vlib.Reporter) {
 	maxRounds := int(sp.phaseLen)*2*5 + 40
 	rounds := 0
 	restarts := 0
+	paused := 0
 	for ; rounds < maxRounds; rounds++ {
 		if sp.byzFirst {
 			for _, b := range byz {
@@ -212,6 +242,14 @@ func runCase(env *vlib.Env, idx int, rep *vlib.Reporter) {
 			k := s.Keypers[i]
 			if k == nil {
 				continue
+			}
+			if sp.pause == i {
+				if h0, ok := eonStarts(s)[1]; ok {
+					if ph := dkgphase.NewConstantPhaseLength(sp.phaseLen).GetPhaseAtHeight(s.Chain.Height()+1, h0); ph == sp.pausePhase {
+						paused++
+						continue
+					}
+				}
 			}
 			if sp.skip > 0 && skipped[i] < sp.maxSkip && rng.Chance(sp.skip, 10) {
 				skipped[i]++
@@ -247,6 +285,9 @@ func runCase(env *vlib.Env, idx int, rep *vlib.Reporter) {
 	rep.Obs("runs", 1)
 	rep.Obs("runs_"+sp.family, 1)
 	rep.Obs("honest_keyper_restarts", int64(restarts))
+	if paused > 0 {
+		rep.Obs("runs_with_an_honest_keyper_paused_through_a_phase", 1)
+	}
 	for _, k := range s.Keypers {
 		if k != nil {
 			if u := k.Node.CheckUnsupported(); u != "" {
